@@ -279,7 +279,8 @@ class Gen:
     """Incremental spec construction inside one @st.composite draw."""
 
     def __init__(self, draw, registry=False, failures=False, opaque=True, flaky=False,
-                 late=False, xdeps=False, alias=False, lits=1, shared=False, sread=False, exotic=False):
+                 late=False, xdeps=False, alias=False, lits=1, shared=False, sread=False, exotic=False,
+                 foreign=False):
         self.draw = draw
         self.nodes = []
         self.registry = registry
@@ -295,6 +296,7 @@ class Gen:
         self.shared = shared
         self.sread = sread
         self.exotic = exotic  # exotic exception types and callables (C06)
+        self.foreign = foreign  # sources created through a registry that is not the one passed to run (C14)
         self.lits = lits  # weight of literal nodes / literal chains in add_any
         self.lit_refs = []
         self.cur_slots = set()
@@ -542,6 +544,9 @@ class Gen:
                 t = d(st.sampled_from(targets))
                 node = {"k": "src", "deps": [{"n": t}], "alias": True, "scope": self.scope()}
                 return self.add(node, hashable=True)
+        if self.foreign and d(st.integers(0, 2)) == 0:
+            # never transformed: executing it raises NotTransformedError (it is a plain failing call for run)
+            return self.add({"k": "src", "deps": [], "scope": self.scope(), "foreign": True}, hashable=True)
         dependent = bool(self.refs) and d(st.sampled_from([True, False, False]))
         xdeps = []
         if self.xdeps and self.refs and not dependent and d(st.integers(0, 1)) == 0:
